@@ -168,3 +168,4 @@ from sa.selftest import VP  # noqa
 VP('C15', 'C15-e1', 'C15.R2', 'call=_schedule_new_conn@0')
 VP('C15', 'C15-e2', 'C15.R2', 'call=_schedule_new_conn@0')
 VP('C15', 'C15-e3', 'C15.R1', 'ledger')
+VP('C15', 'C15-f2', 'C15.R12', 'is-the-ledger')
